@@ -289,9 +289,16 @@ def main(pid, fn, level="model_checking"):
         # input the driver considers legal, the property is broken there (the drivers catch the exceptions they expect: refusals);
         # anything raised by the harness itself is a machinery failure
         tb = traceback.extract_tb(ex.__traceback__)
-        inner = tb[-1].filename if tb else ""
         repo = os.path.realpath(os.environ.get("VERIF_REPO", "/repo"))
-        if os.path.realpath(inner).startswith(repo + os.sep) and os.path.realpath(inner).find(os.sep + "verif" + os.sep) < 0:
+
+        def _in(path, root):
+            return os.path.realpath(path).startswith(root + os.sep)
+        # frames of third-party libraries (numpy, scipy, the standard library) are passed over: an exception scipy raises on what the
+        # code under test hands it belongs to the code under test, one raised on what the harness hands it to the harness
+        own = [f for f in tb if _in(f.filename, repo) or _in(f.filename, VERIF)]
+        tb = tb[:tb.index(own[-1]) + 1] if own else tb
+        inner = tb[-1].filename if tb else ""
+        if _in(inner, repo) and not _in(inner, VERIF):
             where = [f for f in tb if "/harness/checks/" in f.filename]
             ctx.violation({"kind": "code-raises", "error": type(ex).__name__, "at": os.path.relpath(os.path.realpath(inner), repo)},
                           "%s: %s raised in %s:%d (%s) while the driver ran line %s" % (
